@@ -7,6 +7,8 @@ state-model call on the same (dt, state, control) that fed G and V; (LAY-KEYMAT)
 entry (i, j) is the user's noise for controls (i, j) by name; (PURE) the prediction path writes nothing
 but fresh locals.  Not decided: the numeric values of G, V (C03 + sympy).
 """
+import ast
+
 from .. import core, effects, keymat, scenarios
 from ..matform import MatForm
 from ..values import *  # noqa
@@ -121,5 +123,37 @@ def run(ctx: core.Ctx) -> int:
                      ("TRUST-SIG", "trusted sympy call signatures")):
         ctx.rule(_rid, _t)
     _tmp.check_python_block(ctx, it.p.modules["python"])
+    # ARG-PASS: the entry point hands what it was given to the filter's constructor as is.  The noise, the models and the symbolic model that
+    # compile_ekf receives are the ones the filter is built from -- a "sanitised" / rounded / re-keyed copy (e.g. nearest_positive_definite(
+    # process_noise), which floors small entries) makes the filter's M something other than the noise the user supplied by name.
+    ctx.rule("ARG-PASS", "python.compile_ekf passes its symbolic model, noises and sensor models to ExtendedKalmanFilter unchanged")
+    ce = core.find_func(mod, "compile_ekf")
+    ekf_init = core.find_func(cls, "__init__")
+    npass = 0
+    if ce is None or ekf_init is None:
+        ctx.error("anchor missing: python.compile_ekf / ExtendedKalmanFilter.__init__")
+    else:
+        calls = [c_ for c_ in ast.walk(ce) if isinstance(c_, ast.Call) and ast.unparse(c_.func) == "ExtendedKalmanFilter"]
+        if len(calls) != 1:
+            ctx.error(f"python.compile_ekf constructs ExtendedKalmanFilter {len(calls)} time(s)")
+        else:
+            bound = core.bind_call(calls[0], ekf_init, skip_first=True)
+            if bound is None:
+                ctx.error("python.compile_ekf: the constructor call cannot be bound to ExtendedKalmanFilter.__init__")
+            else:
+                ce_params = {a.arg for a in ce.args.posonlyargs + ce.args.args + ce.args.kwonlyargs}
+                rebinds = {t_.id for a_ in ast.walk(ce) if isinstance(a_, (ast.Assign, ast.AugAssign, ast.AnnAssign))
+                           for t_ in ast.walk(a_.targets[0] if isinstance(a_, ast.Assign) else a_.target) if isinstance(t_, ast.Name)}
+                for pname, want in (("state_model", "symbolic_model"), ("process_noise", "process_noise"), ("sensor_models", "sensor_models"),
+                                    ("sensor_noises", "sensor_noises")):
+                    got = bound.get(pname)
+                    txt = ast.unparse(got) if got is not None else None
+                    okp = isinstance(got, ast.Name) and got.id == want and want in ce_params and want not in rebinds
+                    npass += 1
+                    ctx.oblige("ARG-PASS", f"{file}:compile_ekf", f"{pname} = {txt}", okp, file=file, func="compile_ekf", construct=f"constructor argument {pname}",
+                               msg=f"compile_ekf builds the filter with {pname}={txt}, not with the `{want}` it was given: the filter's "
+                                   f"{'noise matrix' if 'noise' in pname else 'model'} is no longer what the caller supplied by name",
+                               line=calls[0].lineno)
+    ctx.floor("ARG-PASS", npass, 4, "constructor arguments of the filter in python.compile_ekf")
     return core.finish(ctx, explanation="E2 axis typing + E3 normal form of process_model's result, name-keyed noise table, "
                                         "effect analysis of the prediction path", **META)
